@@ -488,6 +488,8 @@ impl AddressLookupServices {
     ///
     /// If there is historical Address Lookup data, it will be published immediately on this service.
     pub fn add_boxed(&self, service: Box<dyn AddressLookup>) {
+        #[cfg(feature = "verif-hooks")]
+        crate::verif_hooks::pause("lookup.add.enter");
         {
             let data = self.last_data.read().expect("poisoned");
             if let Some(data) = &*data {
